@@ -22,6 +22,7 @@ import AnnetModel.Lemmas.AclDiff
 import AnnetModel.Lemmas.Provenance
 import AnnetModel.Lemmas.Pipeline
 import AnnetModel.Lemmas.OutsideFlat
+import AnnetModel.Lemmas.OutsideNested
 
 /-! OBLIGATIONS
 Annet.AclDiff.C02_commands_address_covered
@@ -39,6 +40,9 @@ Annet.AclDiff.C02_nothing_in_nothing_out
 Annet.AclDiff.C02_uncovered_line_untouched_flat
 Annet.AclDiff.C02_uncovered_line_untouched_device
 Annet.AclDiff.C02_uncovered_line_untouched_instance
+Annet.AclDiff.C02_uncovered_line_untouched_nested
+Annet.AclDiff.C02_uncovered_subtree_untouched
+Annet.AclDiff.C02_uncovered_subtree_untouched_instance
 -/
 
 namespace Annet.AclDiff
@@ -185,6 +189,45 @@ theorem C02_uncovered_line_untouched_instance :
           OutsideFlat.Example.old.kids).filter
         (fun e => Device.Abs.slotOf OutsideFlat.Example.rules e.1 == some OutsideFlat.Example.s)).map (·.1) = ["ntp 1.1.1.1"] :=
   OutsideFlat.Example.outside_flat_instance
+
+
+/-! ### clause (b) at every depth (`Lemmas/OutsideNested.lean`) -/
+
+/-- (b), nested: along a path `p` of blocks whose own diff entries (if any) are the block line itself, neither REMOVED nor
+MOVED (`OutsideNested.Outside`, decidable, on the shown diff), a slot `s` below `p` that no diff entry of that level
+addresses keeps exactly its lines — text, subtrees, order — when the tree of the patch `_diff_and_patch` builds is executed
+(`ConvergeNested.applyTree`, the executor of `C01_nested_converges`), whatever the device holds.  If some block on the path
+has no diff entry at all nothing is asked below it.  `PathOK`: the rulebook hypotheses of the top-level theorem at the rule
+sets reached along `p` (from `NestedRules`, `CmdsOKAll` and `UniquePath` by `OutsideNested.pathOK_of_nested`). -/
+theorem C02_uncovered_line_untouched_nested (pv : Rules.Vendor) (av : Acl.Vendor) (acl : Acl.Rules) (rules : Rules.PRules)
+    (ordering : List Rules.ORule) (old new : Cfg) (res : Api.Result) (env : Device.Env) (p : List String)
+    (s : Device.Abs.Slot)
+    (h : deviceModeAcl Patch.runLogic pv av acl rules ordering old new = .ok res)
+    (hok : OutsideNested.PathOK pv env rules p s)
+    (hs : OutsideNested.Outside env rules res.diff p s)
+    (dev : Cfg) (ls : List (String × Cfg)) (hdev : OutsideNested.slotLinesAt rules dev.kids p s = some ls) :
+    OutsideNested.slotLinesAt rules (ConvergeNested.applyTree env rules res.patch dev.kids) p s = some ls :=
+  OutsideNested.outside_nested pv av acl rules ordering old new res env p s h hok hs dev ls hdev
+
+/-- The property's own wording: the line `r` below the surviving path `p`, with its whole subtree, is unchanged. -/
+theorem C02_uncovered_subtree_untouched (pv : Rules.Vendor) (av : Acl.Vendor) (acl : Acl.Rules) (rules : Rules.PRules)
+    (ordering : List Rules.ORule) (old new : Cfg) (res : Api.Result) (env : Device.Env) (p : List String) (r : String)
+    (s : Device.Abs.Slot)
+    (h : deviceModeAcl Patch.runLogic pv av acl rules ordering old new = .ok res)
+    (hok : OutsideNested.PathOK pv env rules p s) (hs : OutsideNested.Outside env rules res.diff p s)
+    (hr : (OutsideNested.rulesAt rules p).bind (fun cr => Device.Abs.slotOf cr r) = some s)
+    (dev c : Cfg) (hdev : OutsideNested.subtreeAt dev.kids (p ++ [r]) = some c) :
+    OutsideNested.subtreeAt (ConvergeNested.applyTree env rules res.patch dev.kids) (p ++ [r]) = some c :=
+  OutsideNested.outside_subtree pv av acl rules ordering old new res env p r s h hok hs hr dev c hdev
+
+/-- Non-vacuity at depth 2: rulebook `interface * { sub * { ip }, mtu, description }`, `sysname`; ACL `interface * { mtu }`;
+old `interface a { mtu 1500; description uplink; sub 1 { ip 1 } }`, new `interface a { mtu 9000; sub 1 { ip 2 } }`: after
+the patch `description uplink` is still below `interface a`, although new lacks it. -/
+theorem C02_uncovered_subtree_untouched_instance :
+    OutsideNested.subtreeAt (ConvergeNested.applyTree ConvergeNested.Example.env ConvergeNested.Example.rules
+        OutsideNested.Example.exRes.patch OutsideNested.Example.old.kids) ["interface a", "description uplink"] =
+      some (.mk []) :=
+  OutsideNested.Example.outside_subtree_instance
 
 
 end Annet.AclDiff
